@@ -21,6 +21,7 @@ type RecQueue struct {
 	requeues map[any]int
 	delayed  []DelayedItem
 	inflight int
+	current  any
 	// HoldRateLimited parks rate-limited re-adds too (instead of re-adding at once); used by the
 	// free-running modes so that a permanently failing key does not spin.
 	HoldRateLimited bool
@@ -104,6 +105,7 @@ func (q *RecQueue) Get() (any, bool) {
 		q.mu.Lock()
 		q.rec("Get", item, 0)
 		q.inflight++
+		q.current = item
 		q.mu.Unlock()
 	}
 	return item, shutdown
@@ -120,6 +122,16 @@ func (q *RecQueue) Done(item any) {
 func (q *RecQueue) ShutDown()          { q.inner.ShutDown() }
 func (q *RecQueue) ShutDownWithDrain() { q.inner.ShutDownWithDrain() }
 func (q *RecQueue) ShuttingDown() bool { return q.inner.ShuttingDown() }
+
+// Current returns the key most recently handed to a worker by Get ("" if none).
+func (q *RecQueue) Current() string {
+	q.mu.Lock()
+	defer q.mu.Unlock()
+	if q.current == nil {
+		return ""
+	}
+	return keyString(q.current)
+}
 
 // Idle reports whether nothing is queued or being processed.
 func (q *RecQueue) Idle() bool {
